@@ -225,6 +225,52 @@ def pair(kind, transport, n_jobs):
     return handles, viol, summary
 
 
+def reuse(kind, transport):
+    """A job id is used again after the first job with it was completed: the second job's arguments and
+    settings are what its consumer gets."""
+    x = Exec(kind, buckets="both" if transport != "inline" else "results")
+    w = x.world
+    viol = []
+    summary = {}
+    try:
+        async def main():
+            await w.connect()
+            await w.broker.queue_declare("q")
+            c = w.broker.get_consumer("q", None, None, MessageCategory.NORMAL)
+            await c.start()
+            out = []
+            for day, kw in ((1, dict(retries=1, timeout=timedelta(seconds=300))),
+                            (2, dict(retries=3, timeout=timedelta(seconds=1200, microseconds=7), ttl=timedelta(hours=6)))):
+                if transport == "args_id":
+                    kw["args_id"] = f"explicit-{day}"
+                job = Job("job", queue="q", id_="nightly", args={"day": day}, _connection=w.conn, **kw)
+                key, args, params = await job.enqueue()
+                k2, payload, p2 = await asyncio.wait_for(c.consume(), 3.0)
+                real = await _Processor(w.conn).get_payload(payload)
+                out.append((args, real, params, p2))
+                await w.broker.ack(k2)
+                await asyncio.sleep(1.0)
+            await c.finish()
+            return out
+
+        st, v = x.run(main(), max_iters=300_000)
+        if st != "ok":
+            viol.append(("e2e-failed", f"two jobs with one id ended with {st}: {v!r}"))
+            return x.loop.handles, viol, summary
+        for n_, (args, real, params, p2) in enumerate(v):
+            if real != args:
+                viol.append(("payload-differs", f"job {n_ + 1} with the reused id was enqueued with {args!r}, its consumer has {real!r}"))
+            if p2 != params:
+                diff = {f.name: (getattr(params, f.name), getattr(p2, f.name)) for f in dataclasses.fields(params)
+                        if getattr(params, f.name) != getattr(p2, f.name)}
+                viol.append(("params-differ", f"job {n_ + 1} with the reused id: parameters changed in transit: {diff}"))
+        summary = dict(got=[r for _, r, _, _ in v])
+        handles = x.loop.handles
+    finally:
+        x.close()
+    return handles, viol, summary
+
+
 def codec_cases():
     tss = [datetime(2001, 9, 9, 1, 46, 40, us) for us in (0, 1, 999999)] + \
           [datetime(2001, 9, 9, 1, 46, 40, 5, tzinfo=timezone.utc),
@@ -343,6 +389,7 @@ def jobs(tier):
         for tr in ("inline", "bucket", "args_id"):
             for nj in (2, 3):
                 cases.append(dict(t="pair", kind=kind, tr=tr, n=nj))
+            cases.append(dict(t="reuse", kind=kind, tr=tr))
     n = 40
     out = [dict(cases=cases[i:i + n]) for i in range(0, len(cases), n)]
     out.append(dict(cases=[dict(t="codecs")]))
@@ -371,8 +418,8 @@ def run_job(job):
         elif c["t"] == "names":
             viol = run_names(acc)
             summary = None
-        elif c["t"] == "pair":
-            handles, viol, summary = pair(c["kind"], c["tr"], c["n"])
+        elif c["t"] in ("pair", "reuse"):
+            handles, viol, summary = pair(c["kind"], c["tr"], c["n"]) if c["t"] == "pair" else reuse(c["kind"], c["tr"])
             acc.handles += handles
             acc.executions += 1
             acc.outcomes.add(digest([c, summary]))
